@@ -1,5 +1,3 @@
-//go:build verif_c13
-
 package harness
 
 import (
@@ -359,6 +357,7 @@ func c13EndToEnd(c *c13) (string, string) {
 	}
 	scs := []sc{
 		{c13E2EOpt{N: 1, Budget: 300, CancelMember: -1}, "single member"},
+		{c13E2EOpt{N: 2, Budget: 300, CancelMember: -1}, "two members"},
 		{c13E2EOpt{N: 3, Budget: 400, CancelMember: -1, StartDelay: delays(3, 6)}, "arbitrary start order"},
 		{c13E2EOpt{N: 3, Budget: 500, CancelMember: 1 + r.Intn(2), CancelAt: 5 + r.Intn(40), RestartAfter: 1 + r.Intn(6)}, "a signer is stopped and restarted"},
 		{c13E2EOpt{N: 4, Budget: 700, CancelMember: 0, CancelAt: 5 + r.Intn(40), RestartAfter: 1 + r.Intn(6), StartDelay: delays(4, 4)}, "the leader is stopped and restarted"},
@@ -370,7 +369,7 @@ func c13EndToEnd(c *c13) (string, string) {
 			late[n-1] = 40 // a minority of non-leading members absent during the Notary bootstrap
 			scs = append(scs, sc{c13E2EOpt{N: n, Budget: 900, CancelMember: -1, StartDelay: late}, "last member absent during bootstrap"})
 		}
-		scs = append(scs, sc{c13E2EOpt{N: 2, Budget: 150, CancelMember: -1}, "n=2 (F7)"})
+		scs = append(scs, sc{c13E2EOpt{N: 2, Budget: 500, CancelMember: 1, CancelAt: 3 + r.Intn(30), RestartAfter: 1 + r.Intn(8)}, "two members, the signer restarted"})
 	}
 	var fcases []string
 	for i, s := range scs {
@@ -397,9 +396,6 @@ func c13EndToEnd(c *c13) (string, string) {
 				out = "wrong-final-state"
 				c.st.AddViolation("deploy.Deploy returned nil for every member but the final state is not the expected one, or the re-run was not idle", res)
 			}
-		case s.opt.N == 2 && nilCount == 0 && !res.Notary && res.NNSID1:
-			out = "stuck-in-notary-bootstrap(F7)"
-			c.st.AddKnown("C13/notary-bootstrap-indices")
 		default:
 			out = "not-converged"
 			c.st.AddViolation("deploy.Deploy did not return nil for every member within the block budget", res)
